@@ -55,6 +55,9 @@ type Task struct {
 	exited   bool
 	children map[string]int
 	steps    int
+	// anon: a goroutine that was not started through Go/Spawn (third-party code that entered an
+	// instrumented lock); its exit cannot be observed, so it counts as live only while parked
+	anon bool
 }
 
 // Sched is one run's scheduler.
@@ -151,7 +154,7 @@ func (s *Sched) taskFor(g uint64, firstSite string) *Task {
 	if t == nil {
 		k := s.anon[firstSite]
 		s.anon[firstSite] = k + 1
-		t = &Task{Name: fmt.Sprintf("anon[%s]#%d", firstSite, k), gid: g, wake: make(chan struct{}, 1), children: map[string]int{}}
+		t = &Task{Name: fmt.Sprintf("anon[%s]#%d", firstSite, k), gid: g, wake: make(chan struct{}, 1), children: map[string]int{}, anon: true}
 		s.tasks[g] = t
 		s.order = append(s.order, t)
 	}
@@ -356,7 +359,7 @@ func (s *Sched) Live() int {
 	defer s.mu.Unlock()
 	n := 0
 	for _, t := range s.order {
-		if !t.exited {
+		if !t.exited && (!t.anon || t.op != nil) {
 			n++
 		}
 	}
